@@ -70,7 +70,7 @@ class Namer:
 
 CORE_FLAVOURS = ('bare', 'bare', 'bare', 'bare', 'upper', 'upper', 'digit', 'digit', 'space', 'space', 'dash', 'dash', 'unicode', 'unicode', 'bslash')
 
-PLAIN_WORDS = ['alpha', 'beta', 'gamma', 'delta', 'user id', 'to include unit number', 'x', 'Total', 'naïve', '数据']
+PLAIN_WORDS = ['alpha', 'beta', 'gamma', 'delta', 'user id', 'to include unit number', 'x', 'Total', 'naïve', '数据', 'New  York']
 RICH_BITS = ["it's", 'say "hi"', 'a\\b', 'back`tick', '{x}', '{0}', '[y]', '# hash', '// not a comment',
              '/* nor this */', 'a: b', 'semi;colon', "'''", '%s', 'tab-less', '<>', 'Table t {', '}']
 
@@ -122,13 +122,14 @@ def rand_default(rng, tx, kinds=None):
     if kind == 'int':
         return am.Default('int', rng.choice([0, 1, 7, 42, 1000000, 12345678901234567890]))
     if kind == 'float':
-        return am.Default('float', rng.choice([0.0, 0.5, 1.25, 3.14, 100.0, 12345.678]))
+        return am.Default('float', rng.choice([0.0, 0.5, 1.25, 3.14, 100.0, 12345.678, 3.14159265, 2.718281828459, 0.0001]))
     if kind == 'bool':
         return am.Default('bool', rng.random() < 0.5)
     if kind == 'null':
         return am.Default('null', None)
     if kind == 'expr':
-        return am.Default('expr', rng.choice(['now()', 'id * 2', "concat('a', 'b')", 'uuid_generate_v4()', '(1 + 2)']))
+        return am.Default('expr', rng.choice(['now()', 'id * 2', "concat('a', 'b')", 'uuid_generate_v4()', '(1 + 2)', '(a) + (b)',
+                                              "regexp_replace(body, E'\\n', ' ')", 'a  +  b']))
     return am.Default('str', tx.line('d'))
 
 
@@ -140,7 +141,7 @@ def rand_type(rng, nm, doc, enum_p=0.25):
     if k == 'plain':
         return am.ColType('plain', base)
     if k == 'args':
-        return am.ColType('args', base + rng.choice(['(255)', '(10,2)', '(10, 2)', "('a','b')", '(max)']))
+        return am.ColType('args', base + rng.choice(['(255)', '(10,2)', '(10, 2)', '(10,  2)', "('a','b')", '(max)']))
     if k == 'array':
         return am.ColType('array', base + '[]')
     if k == 'dotted':
@@ -282,7 +283,7 @@ def random_doc(rng, size='small', text_profile='plain', flavours=CORE_FLAVOURS, 
         g.comment = maybe(0.3 if comments else 0, lambda: tx.comment())
         doc.groups.append(g)
     for _ in range(rng.choice([0, 0, 1, 2])):
-        doc.stickies.append(am.Sticky(nm('sn'), tx.note('st', 0.5)))
+        doc.stickies.append(am.Sticky(nm('sn'), tx.note('st', 0.5) if rng.random() > 0.04 else ''))
     if rng.random() < 0.5:
         p = am.Project(nm('p'))
         for _ in range(rng.randint(0, 3)):
@@ -658,6 +659,9 @@ def graph_doc(rng, shape, n, same_bare_names=False, cyclic=False, kinds=('>', '<
     edges = dag_edges(rng, shape, n)
     if cyclic and n >= 2:
         edges = sorted(set(edges) | {(b, a) for a, b in edges[:1]} | {(0, n - 1), (n - 1, 0)})
+    if rng.random() < 0.3:
+        # several foreign keys between the same two tables (a holder may have more keys than there are tables)
+        edges = sorted(edges + [e for e in edges for _ in range(rng.randint(0, 3))])
     for h, t in edges:
         kind = rng.choice(kinds)
         H, T = doc.tables[h], doc.tables[t]
